@@ -491,6 +491,16 @@ func (o *TreeOpts) sized() *TreeOpts {
 // long lists with containers in the tail, wide objects, long strings
 var stressSizes = []int{9, 15, 16, 17, 31, 33, 64, 65, 127, 128, 129, 130, 131, 255, 257}
 
+// the next tier (1024, 4096): used sparingly, the model evaluates these in tens of milliseconds, not microseconds
+var bigSizes = []int{1023, 1025, 1030, 1500, 4097, 4101, 4102}
+
+func (r *R) stressSize() int {
+	if r.chance(0.12) {
+		return pickOf(r, bigSizes)
+	}
+	return pickOf(r, stressSizes)
+}
+
 func (r *R) stressTree(o *TreeOpts, wantObj bool) *V {
 	var v *V
 	switch r.Intn(4) {
@@ -513,10 +523,14 @@ func (r *R) stressTree(o *TreeOpts, wantObj bool) *V {
 			}
 		}
 	case 1: // long list, containers sprinkled in, always some in the last three positions
-		n := pickOf(r, stressSizes)
+		n := r.stressSize()
 		l := &V{K: KList}
+		sprinkle := 0.06
+		if n > 300 {
+			sprinkle = 0.004
+		}
 		for i := 0; i < n; i++ {
-			if r.chance(0.06) || (i >= n-3 && r.chance(0.6)) {
+			if r.chance(sprinkle) || (i >= n-3 && r.chance(0.6)) {
 				l.L = append(l.L, r.tree(o, 2))
 			} else {
 				l.L = append(l.L, r.scalar(o))
